@@ -178,9 +178,23 @@ def specInfo (cfg : Cfg) (ts : List (Option Table)) (op : TOp) : Json :=
       match t.rows with
       | .ok R =>
         obj [("hyp", Json.bool (whereWF cfg t pos kws)),
+             ("match", (match kws with
+               | [kw] => (match (condOf pos kw).test with
+                 | .cmp .mtch (.scalar v) =>
+                   rowsToJson (R.filter (fun r => match cellOf t.columns r kw.1 with | .ok c => matchCell v c | .error _ => false))
+                 | _ => Json.null)
+               | _ => Json.null)),
              ("spec", match whereS { columns := t.columns, rows := R } (kws.map (condOf pos)) with
                       | .ok rs => rowsToJson rs
                       | .error e => obj [("err", Json.str (errName e))])]
+      | .error _ => Json.null
+    | Option.none => Json.null
+  | .insert i d =>
+    match (ts[i]?).bind id with
+    | some t =>
+      match t.rows with
+      | .ok R => obj [("ihyp", Json.bool (insertWF cfg t d)), ("columns", ofList ofNat (insertS t.columns R d).1),
+                      ("rows", rowsToJson (insertS t.columns R d).2)]
       | .error _ => Json.null
     | Option.none => Json.null
   | .index i cols =>
@@ -192,8 +206,9 @@ def specInfo (cfg : Cfg) (ts : List (Option Table)) (op : TOp) : Json :=
         let ks := idxPositions t.columns (effIndex cfg t cols)
         obj [("hyp", Json.bool hyp),
              ("perm", Json.bool (permKeys (R.map (List.map Cell.key)) (R'.map (List.map Cell.key)))),
-             ("sorted", Json.bool (pairsAll R' (fun r s => !(lexLt ks s r))))]
-      | _, _ => obj [("hyp", Json.bool hyp), ("perm", Json.bool false), ("sorted", Json.bool false)]
+             ("sorted", Json.bool (pairsAll R' (fun r s => !(lexLt ks s r)))),
+             ("stablesort", Json.bool (R'.map (List.map Cell.key) == (indexS ks R).map (List.map Cell.key)))]
+      | _, _ => obj [("hyp", Json.bool hyp), ("perm", Json.bool false), ("sorted", Json.bool false), ("stablesort", Json.bool false)]
     | Option.none => Json.null
   | _ => Json.null
 
@@ -204,6 +219,35 @@ def runWithSpec (cfg : Cfg) : List (Option Table) → List TOp → List (Obs × 
     let r := step cfg ts op
     (r.2, info) :: runWithSpec cfg r.1 rest
 
+/-- the linear history inside a case: the operations on the table the history is currently "at"
+(`where`/`copy` move on to the table they create); it ends at the first mutation of another object -/
+def linearOf : List TOp → Nat → Nat → List LOp × Nat
+  | [], cur, _ => ([], cur)
+  | op :: rest, cur, next =>
+    match op with
+    | .insert i d => if i = cur then let r := linearOf rest cur next; (LOp.insert d :: r.1, r.2) else ([], cur)
+    | .index i cols => if i = cur then let r := linearOf rest cur next; (LOp.index cols :: r.1, r.2) else ([], cur)
+    | .whr i pred pos kws =>
+      if i = cur then
+        let r := linearOf rest next (next + 1)
+        ((match pred with | some p => LOp.whereP p | Option.none => LOp.whereK pos kws) :: r.1, r.2)
+      else linearOf rest cur (next + 1)
+    | .copy i =>
+      if i = cur then let r := linearOf rest next (next + 1); (LOp.copy :: r.1, r.2)
+      else linearOf rest cur (next + 1)
+    | .skip creates => linearOf rest cur (if creates then next + 1 else next)
+    | _ => linearOf rest cur next
+
+def absToJson (a : AbsT) : Json :=
+  obj [("rows", rowsToJson a.rows), ("columns", ofList ofNat a.columns), ("indexes", ofList ofNat a.indexes)]
+
+/-- the two sides of `ops_refine` for the linear history of the case -/
+def linearInfo (cfg : Cfg) (init : Init) (ops : List TOp) : Json :=
+  let lin := linearOf ops 0 1
+  obj [("n", ofNat lin.1.length), ("cur", ofNat lin.2), ("wfl", Json.bool (WFL cfg init.table lin.1)),
+       ("model", match runL cfg init.table lin.1 with | .ok t => absToJson t.abs | .error e => obj [("err", Json.str (errName e))]),
+       ("spec", match runLS init.table.abs lin.1 with | .ok a => absToJson a | .error e => obj [("err", Json.str (errName e))])]
+
 /-- request `{"cfg":{…}, "init":…, "ops":[…]}` → `{"model":[obs…], "spec":[…]}` (first entry of
 `model`: the initial table; `spec` has one entry per operation) -/
 def handle (req : Json) : Except String Json := do
@@ -212,6 +256,7 @@ def handle (req : Json) : Except String Json := do
   let ops ← (← arr (← field req "ops")).mapM parseTOp
   let res := runWithSpec cfg [some init.table] ops
   pure (obj [("model", ofList obsToJson (observe init.table :: res.map (·.1))),
-             ("spec", Json.arr (res.map (·.2)).toArray)])
+             ("spec", Json.arr (res.map (·.2)).toArray),
+             ("linear", linearInfo cfg init (ops.filter (fun o => match o with | .peek _ => false | _ => true)))])
 
 end Coba.C17.Driver
